@@ -1602,6 +1602,11 @@ func (d *DotGit) PackRefs() (err error) {
 
 	w := bufio.NewWriter(tmp)
 	for _, ref := range refs {
+		// packed-refs can only hold "<hash> <name>" lines: symbolic
+		// references stay loose, as with git pack-refs.
+		if ref.Type() != plumbing.HashReference {
+			continue
+		}
 		_, err = w.WriteString(ref.String() + "\n")
 		if err != nil {
 			return err
@@ -1621,6 +1626,9 @@ func (d *DotGit) PackRefs() (err error) {
 	// Delete all the loose refs, while still holding the packed-refs
 	// lock.
 	for _, ref := range refs[:numLooseRefs] {
+		if ref.Type() != plumbing.HashReference {
+			continue
+		}
 		path := d.fs.Join(".", ref.Name().String())
 		err = d.fs.Remove(path)
 		if err != nil && !os.IsNotExist(err) {
